@@ -16,7 +16,7 @@ def run(ctx):
     ctx.build_harness()
     ctx.tlc_must_pass("MC_Decoder", "MC_Decoder_q" if quick else "MC_Decoder_t", timeout=3000)
     fams = ["corpus-nocuts", "opsweep", "meta", "random", "alphabet", "adversarial"]
-    cov = deccheck.run_decoder_traces(ctx, fams, 1500 if quick else 30000, KINDS,
+    cov = deccheck.run_decoder_traces(ctx, fams, 1500 if quick else 100000, KINDS,
                                       "disassembly differs from the decoding machine's listing")
     # cmd/disivg is a thin file wrapper: same bytes as the library call, non-zero exit on a rejected file
     import os, subprocess
